@@ -161,6 +161,7 @@ def make_pool():
     P["ch_l2e"] = ["C", "A:min", "G", "D:7", "A:7", "A:7", "G:maj7"]
     P["ch_xi"] = a([[0.0, 1.0], [1.0, 2.0], [2.0, 3.0]])
     P["ch_xl"] = ["G:9", "G:11", "G:7"]
+    P["ch_dl"] = ["D:9(*5)", "A:min9(*b3)", "D:9"]         # extended quality + degree list (reduce mode)
     P["cmp"] = a([1.0, 0.0, -1.0, 1.0, 1.0, 0.0, 1.0])
     P["wts"] = a([1.0, 2.0, 1.0, 0.5, 1.0, 1.0, 2.0])
     P["bitmap"] = a([1, 0, 0, 0, 1, 0, 0, 1, 0, 0, 0, 0])
@@ -203,6 +204,7 @@ def make_pool():
     P["pc_t"] = a([0.0, 0.01, 0.02, 0.03])
     P["pc_f"] = a([220.0, 0.0, -230.0, 440.0])
     P["pc_a"] = a([1.0, 0.5, 0.5, 1.0])
+    P["pc_fn"] = a([220.0, np.nan, 230.0, np.inf])          # float64 with NaN / inf (nan_to_num territory)
     P["sch_l"] = ["C:maj", "N", "A:min"]
     P["sch_i"] = a([[0.0, 0.01], [0.01, 0.02], [0.02, 0.03]])
     # separation (deterministic small signals; the heavy cases are listed separately)
@@ -378,6 +380,11 @@ def descriptors():
     d("chord.tetrads[ext]", lambda P: chord.tetrads(P["ch_xl"], ["G:7", "G:7", "G:9"]), ["ch_xl"], risky=True)
     d("chord.evaluate[ext]", lambda P: chord.evaluate(P["ch_xi"], P["ch_xl"], P["ch_ei"], P["ch_el"]),
       ["ch_xi", "ch_xl", "ch_ei", "ch_el"], risky=True)
+    d("chord.split[reduce,degrees]", lambda P: chord.split("D:9(*5)", reduce_extended_chords=True), [], risky=True)
+    d("chord.merge_chord_intervals[ext,degrees]", lambda P: chord.merge_chord_intervals(P["ch_xi"], P["ch_dl"]),
+      ["ch_xi", "ch_dl"], risky=True)
+    d("chord.evaluate[ext,degrees]", lambda P: chord.evaluate(P["ch_xi"], P["ch_dl"], P["ch_ei"], P["ch_el"]),
+      ["ch_xi", "ch_dl", "ch_ei", "ch_el"], risky=True)
     d("chord.encode_many[reduce]", lambda P: chord.encode_many(P["ch_xl"], True), ["ch_xl"], risky=True)
     d("chord.evaluate", lambda P: chord.evaluate(P["ch_ri"], P["ch_rl"], P["ch_ei"], P["ch_el"]),
       ["ch_ri", "ch_rl", "ch_ei", "ch_el"], risky=True)
@@ -452,6 +459,8 @@ def descriptors():
       ["gram", "gfreqs", "gtimes"], risky=True)
     d("sonify.pitch_contour", lambda P: sonify.pitch_contour(P["pc_t"], P["pc_f"], 8000, amplitudes=P["pc_a"], length=400),
       ["pc_t", "pc_f", "pc_a"], risky=True)
+    d("sonify.pitch_contour[nan]", lambda P: sonify.pitch_contour(P["pc_t"], P["pc_fn"], 8000, length=400),
+      ["pc_t", "pc_fn"], risky=True)
     d("sonify.chroma", lambda P: sonify.chroma(P["chroma_gram"], P["gtimes"], 8000, length=300),
       ["chroma_gram", "gtimes"], heavy=True)
     d("sonify.chords", lambda P: sonify.chords(P["sch_l"], P["sch_i"], 8000, length=300), ["sch_l", "sch_i"],
@@ -603,6 +612,69 @@ def shard_hist(arg):
     return acc
 
 
+# ------------------------------------------------------------------------------------------ caller-side edits
+# A caller may legitimately edit its own data between two calls.  For every descriptor d that uses an editable pool
+# object X:   [fresh pool; d; edit X in place; d]  must give the same second result as  [fresh pool; edit X; d]
+# (a memo keyed by object identity, a cached view, a stale pre-computed table would make them differ).
+def _edit_pat(x):
+    x[0][0][1] = (x[0][0][1][0], x[0][0][1][1] + 7.0)
+
+
+def _edit_list0(x):
+    x[0] = x[-1]
+
+
+def _edit_arr(x):
+    x[-1] = x[-1] * 1.25 + 0.125
+
+
+def _edit_frames(x):
+    if len(x[0]):
+        x[0][0] = x[0][0] * 2.0
+
+
+EDITS = {"pat_r": _edit_pat, "pat_r2": _edit_pat, "pat_e": _edit_pat, "s_rl": _edit_list0, "s_el": _edit_list0,
+         "ch_rl": _edit_list0, "ch_xl": _edit_list0, "h_rl": (lambda x: _edit_list0(x[1])), "beats_e": _edit_arr,
+         "onsets_e": _edit_arr, "m_ef": _edit_arr, "n_ep": _edit_arr, "n_ev": _edit_arr, "mp_ef": _edit_frames,
+         "al_e": _edit_arr, "tempi_e": _edit_arr, "lab3": _edit_list0, "sch_l": _edit_list0}
+
+
+def check_edit(acc, name, obj):
+    _ensure_initial_state()
+    P1 = make_pool()
+    EDITS[obj](P1[obj])
+    acc.transitions += 1
+    want = do_call(name, P1)
+    _ensure_initial_state()
+    P2 = make_pool()
+    acc.transitions += 2
+    do_call(name, P2)
+    EDITS[obj](P2[obj])
+    got = do_call(name, P2)
+    if heap(P1) != heap(P2):
+        acc.violation("inputs-unmodified", name, {"kind": "edit", "name": name, "obj": obj},
+                      observed="pools differ after the same edit")
+        return
+    acc.counters["edit_histories"] += 1
+    if want != baseline(name):
+        acc.counters["edit_changes_the_result"] += 1
+    if got != want:
+        acc.violation("repeatable", name, {"kind": "edit", "name": name, "obj": obj},
+                      observed={"call_edit_call": got, "edit_call": want},
+                      note="second call after the caller edited %s in place differs from a first call on the edited "
+                           "data" % obj)
+
+
+def shard_edit(arg):
+    acc = core.Acc(PID)
+    for name, obj in arg:
+        acc.states += 1
+        acc.nontrivial += 1
+        acc.tick({"kind": "edit", "name": name, "obj": obj})
+        check_edit(acc, name, obj)
+    return acc
+
+
 # ------------------------------------------------------------------------------------------ poison seam
 def check_poison(acc, name):
     """the environment's answer to every np.empty / np.empty_like inside mir_eval is enumerated over two poison
@@ -678,6 +750,8 @@ def replay(case, acc):
         check_history(acc, case["hist"])
     elif k == "poison":
         check_poison(acc, case["name"])
+    elif k == "edit":
+        check_edit(acc, case["name"], case["obj"])
     elif k == "layer":
         # re-run both orders in fresh interpreters
         class R(object):
@@ -723,8 +797,11 @@ def run(run):
                 core.chunks(d3, 64))
     run.explore("np.empty poison x2 (all modules, all descriptors)", __name__, "shard_poison",
                 core.chunks(light, 12) + [[n] for n in heavy])
+    edits = [(n, o) for n in names for o in D[n]["uses"] if o in EDITS and not D[n]["heavy"]]
+    run.explore("caller-side edits between two calls (%d descriptor/object pairs)" % len(edits), __name__,
+                "shard_edit", core.chunks(edits, 16))
     two_process_layer(run)
-    run.require_nonvacuous("histories_sharing_an_argument_object")
+    run.require_nonvacuous("histories_sharing_an_argument_object", "edit_histories")
     n_raise = sum(1 for n in names if baseline(n).startswith("raised"))
     run.total.counters["descriptors"] = len(names)
     run.total.counters["descriptors_raising_on_initial_heap"] = n_raise
